@@ -858,14 +858,8 @@ func (fc *fnCtx) setVal(instr ssa.Value, term string) Val {
 func (fc *fnCtx) freshVal(st *State, prefix string, t types.Type) Val {
 	n := fc.defs.Declare(prefix, fc.S().SortOf(t))
 	fc.assume(st, fc.S().RangeFact(t, n, 2))
-	if isPointer(t) {
-		fc.assume(st, fmt.Sprintf("(< %s %s)", n, st.alloc))
-	}
-	if _, ok := t.Underlying().(*types.Slice); ok {
-		fc.assume(st, fmt.Sprintf("(< (sl.base %s) %s)", n, st.alloc))
-	}
-	if isInterface(t) {
-		fc.assume(st, fmt.Sprintf("(< (if.val %s) %s)", n, st.alloc))
+	if af := fc.S().AllocFact(t, n, st.alloc, 3); af != "true" {
+		fc.assume(st, af)
 	}
 	return Val{T: n, Ty: t}
 }
@@ -1130,6 +1124,8 @@ func (fc *fnCtx) execBody(st0 *State, args []Val) {
 		// free variables: pointers to captured cells; opaque
 		n := fc.defs.Declare("fv."+fv.Name(), "Int")
 		fc.vals[fv] = Val{T: n, Ty: fv.Type()}
+		// the address of a captured variable: never nil, allocated before the closure runs
+		fc.assume(st0, fmt.Sprintf("(and (> %s 0) (< %s %s))", n, n, st0.alloc))
 	}
 	fc.findLoops()
 	order := rpo(fn)
@@ -1607,6 +1603,18 @@ func (fc *fnCtx) allocRef(st *State, name string) string {
 	return r
 }
 
+// globalAddr is the address of a package-level variable: a constant, non-nil, distinct per variable
+// name (the object behind it is NOT aliased with the global's modelled value: reads through the
+// pointer in a callee see the pointer heap).
+func (fc *fnCtx) globalAddr(g *ssa.Global) string {
+	name := "ga." + sanitize(g.String())
+	if _, ok := fc.S().ufuns[name]; !ok {
+		fc.S().UFun(name, nil, "Int")
+		fc.S().Axiom(name, fmt.Sprintf("(assert (> %s 0))", name))
+	}
+	return name
+}
+
 // materialize turns an address value into a pointer term when it must be stored
 // or passed (only heap pointers without path are representable).
 func (fc *fnCtx) materialize(st *State, v Val) string {
@@ -1616,6 +1624,9 @@ func (fc *fnCtx) materialize(st *State, v Val) string {
 	l := v.Addr
 	if l.Kind == lvHeap && len(l.Path) == 0 {
 		return l.Ptr
+	}
+	if l.Kind == lvGlobal && len(l.Path) == 0 && l.Glob != nil {
+		return fc.globalAddr(l.Glob)
 	}
 	fc.noteImprecise("interior/local address escapes in %s", fc.fn.Name())
 	n := fc.defs.Declare("addr", "Int")
